@@ -148,11 +148,15 @@ func runC10(c *core.Ctx) {
 	checkNestedWriters(c, "R10.8")
 	c.Rule("R10.9", "every variable index into a fixed-size package-level table of the batching pool is kept below the table's size (shared with C13): a panic on a pool goroutine terminates the server process", 3)
 	checkFixedTableIndices(c, "R10.9")
+	c.Rule("R10.16", "a reply-driven loop over a pipelined batch is left only after the reply of the terminating no-op was read, or on a read error proven not to be an application status (broken connection): nothing of the batch stays unread for the next command", 3)
+	checkReplyLoopExits(c, "R10.16")
 	c.Rule("R10.15", "a backend that cannot be reached when a client connects does not bring the proxy down: the accept loop never closes the (non-nil, zero-valued) handler of a failed constructor call (shared with C15)", 2)
 	runR157(c, "R10.15")
 	c.Share(map[string]string{"R6.3": "R10.13"}, runC06)                     // a command whose expected reply is not counted is acknowledged (zero response) when its connection breaks: the old value stays
 	c.Share(map[string]string{"R12.1": "R10.10"}, runC12)                    // a key lock leaked on an error path below blocks every later command on that stripe, on every connection
-	c.Share(map[string]string{"R13.4": "R10.11", "R13.9": "R10.12"}, runC13) // a pooled connection wedged by a backend fault hangs every request routed to it
+	c.Share(map[string]string{"R13.4": "R10.11", "R13.9": "R10.12", "R13.5": "R10.17"}, runC13)
+	c.Share(map[string]string{"R14.13": "R10.19"}, runC14) // a failed header read must not put a nil header into the shared pool: the next user, on any connection, panics
+	c.Share(map[string]string{"R15.5": "R10.18"}, runC15) // a handler channel left undrained after an error keeps the shared pooled connection's reader blocked: other connections are affected // a pooled connection wedged by a backend fault hangs every request routed to it
 }
 
 // checkNestedWriters (R10.8): every construction or re-targeting of a bufio.Writer on the request path (backend
